@@ -10,7 +10,7 @@ def rebuild(wt):
     sh("cd %s && /venv/bin/python setup.py build_ext --inplace >/dev/null 2>&1; rm -rf build" % wt)
 
 def one(pid, mn, props=None, skip_tests=bool(os.environ.get("SEED_SKIP_TESTS"))):
-    wt, sd = "/tmp/wt_" + pid, "/tmp/seed_%s/%s" % (pid, mn)
+    wt, sd = "/tmp/wt_" + pid, "%s%s/%s" % (os.environ.get("SEED_DIR_PREFIX", "/tmp/seed_"), pid, mn)
     out = {"property": pid, "mutation": mn}
     assert sh("git -C %s status --porcelain" % wt).stdout.strip() == "", "worktree dirty"
     patch = open(sd + "/patch.diff").read()
@@ -32,7 +32,7 @@ def one(pid, mn, props=None, skip_tests=bool(os.environ.get("SEED_SKIP_TESTS")))
         out["checks"] = {}
         for p in (props or [pid]):
             t0 = time.time()
-            r = sh("cd /verif && VERIF_REPO=%s VERIF_EVIDENCE_DIR=/tmp/seed_%s/evidence ./check %s quick" % (wt, pid, p))
+            r = sh("cd /verif && VERIF_REPO=%s VERIF_EVIDENCE_DIR=/tmp/seed_evidence_%s ./check %s quick" % (wt, pid, p))
             lines = (r.stdout + r.stderr).strip().splitlines()
             out["checks"][p] = {"rc": r.returncode, "wall": round(time.time() - t0, 1),
                                 "violations": [l for l in lines if l.startswith("VIOLATION")][:5],
